@@ -8,6 +8,7 @@ From WebP Require Import Gen.Kernels Lib.ZBits Lib.Res Spec.YUV Model.Yuv Spec.A
   Proofs.C12_blend Proofs.C13_yuv Proofs.Alpha_unfilter.
 From WebP Require Spec.Container Proofs.Container_bytes Proofs.Container_safety Model.Container.
 From WebP Require Model.ArithDec Proofs.C15_main Proofs.C15_ops Proofs.VP8L_kernels Proofs.VP8_kernels.
+From WebP Require Import Lib.Arr Proofs.VP8_arraykernels_aux Proofs.VP8_arraykernels.
 Import ListNotations.
 Open Scope Z_scope.
 
@@ -61,4 +62,26 @@ Theorem vp8l_kernels_safe : forall a b c, byte a -> byte b -> byte c ->
 Proof.
   intros a b c Ha Hb Hc. split; [exact (proj2 (Proofs.VP8L_kernels.average2_spec a b Ha Hb))|].
   split; [exact (proj2 (Proofs.VP8L_kernels.clamp_full_spec a b c Ha Hb Hc)) | exact (proj2 (Proofs.VP8L_kernels.clamp_half_spec a b Ha Hb))].
+Qed.
+
+(* loop_filter.rs edge kernels: no i32 overflow, no failing cast, at any edge position whose 8 samples are bytes, for any thresholds;
+   transform.rs: idct4x4 / iwht4x4 cannot overflow for blocks within 2^29 / 2^27 - 1 *)
+Theorem loop_filter_kernels_safe : forall hev_threshold interior_limit edge_limit step a i, taps_bytes a i step ->
+  app8 (lf_simple_segment_ok edge_limit) false (taps_of a i step) = true
+  /\ app8 (lf_subblock_filter_ok hev_threshold interior_limit edge_limit) false (taps_of a i step) = true
+  /\ app8 (lf_macroblock_filter_ok hev_threshold interior_limit edge_limit) false (taps_of a i step) = true.
+Proof.
+  intros h il el step a i H. split; [exact (simple_segment_no_panic el step a i H)|].
+  split; [exact (subblock_filter_no_panic h il el step a i H) | exact (macroblock_filter_no_panic h il el step a i H)].
+Qed.
+
+Theorem transforms_safe : forall b0 b1 b2 b3 b4 b5 b6 b7 b8 b9 b10 b11 b12 b13 b14 b15,
+  (Forall (within dct_bound) [b0; b1; b2; b3; b4; b5; b6; b7; b8; b9; b10; b11; b12; b13; b14; b15] ->
+     idct4x4_ok b0 b1 b2 b3 b4 b5 b6 b7 b8 b9 b10 b11 b12 b13 b14 b15 = true)
+  /\ (Forall (within wht_bound) [b0; b1; b2; b3; b4; b5; b6; b7; b8; b9; b10; b11; b12; b13; b14; b15] ->
+     iwht4x4_ok b0 b1 b2 b3 b4 b5 b6 b7 b8 b9 b10 b11 b12 b13 b14 b15 = true).
+Proof.
+  intros. split; intros H.
+  - exact (proj2 (idct4x4_refines b0 b1 b2 b3 b4 b5 b6 b7 b8 b9 b10 b11 b12 b13 b14 b15 H)).
+  - exact (proj2 (iwht4x4_refines b0 b1 b2 b3 b4 b5 b6 b7 b8 b9 b10 b11 b12 b13 b14 b15 H)).
 Qed.
